@@ -83,6 +83,22 @@ def build(tier="quick", seed=0):
     lemma(b, "composition", "k_l(contract of complex_love_general o contract of effective_rigidity_general) == statement formula",
           sp.And(sp.Eq(k_comp.re, k_stmt.re), sp.Eq(k_comp.im, k_stmt.im)), pos + pre_l + [sp.Gt(J.abs2(), 0), sp.Gt((J * mu + Cx(spec_m(l))).abs2(), 0)])
     call_site(b)
+    # the object-oriented wrappers (static methods of TidesBase) return the helpers' values: callees executed inline from the real love1d source
+    FTB = "TidalPy/tides/methods/base.py"
+    inl = {"effective_rigidity_general": (Fn(F, "effective_rigidity_general"), {}), "complex_love_general": (Fn(F, "complex_love_general"), {})}
+    pre = pos + pre_l
+    try:
+        fn, ex, paths = run_fn(b, FTB, "TidesBase.calculate_effective_rigidity", dict(shear_modulus=mu, gravity=g, radius=Rr, bulk_density=rho, tidal_order_l=l), pre, inline=inl, xcheck=False)
+        if paths:
+            ensure_eq(b, fn, "m_l", paths, spec_m(l), pre, clause="ensures the wrapper returns (2l^2+4l+3) mu/(l rho g R) for the degree it is given")
+            no_raise(b, fn, paths, pre)
+        pre = [sp.Gt(mu, 0)] + pre_l + pre_J + pre_m
+        fn, ex, paths = run_fn(b, FTB, "TidesBase.calculate_complex_love_number", dict(shear_modulus=mu, complex_compliance=J, effective_rigidity=m, tidal_order_l=l), pre, inline=inl, xcheck=False)
+        if paths:
+            ensure_eq(b, fn, "k_l", paths, spec_k(l, m), pre, clause="ensures the wrapper returns 3/(2(l-1))/(1+m_l/(J mu)) for the degree and rigidity it is given")
+            no_raise(b, fn, paths, pre)
+    except ExtractError as e:
+        b.subset_exits.append(str(e))
     b.assume("agreement with the layered radial solver is the Kelvin lemma of C01 instantiated at complex mu = 1/J; not re-proved here")
     b.assume("symbolic degree l is a real >= 2; integer-ness of order_l is not used")
     return b
